@@ -145,3 +145,35 @@ func ga_ExpTriple(p *EdwardsPoint, a *scalar.Scalar, A *ExpandedEdwardsPoint, b 
 	SetPid(p, v)
 	return p
 }
+
+// multiscalar products: a left fold of an uninterpreted accumulate step over (scalar, point) pairs, so that
+// the symbol records exactly which scalar met which point, in order (any length).
+func GMsmStep(acc, s, p verif.BV) verif.BV { return verif.UFBV("ed_msm_step", 256, acc, s, p) }
+
+//verif:contract for=(*curve.EdwardsPoint).MultiscalarMulVartime group=gapi
+func ga_Msm(p *EdwardsPoint, scalars []*scalar.Scalar, points []*EdwardsPoint) *EdwardsPoint {
+	verif.Requires(len(scalars) == len(points), "MultiscalarMulVartime: equal lengths (documented panic otherwise)")
+	acc := GIdentity()
+	for i := range scalars {
+		acc = GMsmStep(acc, scalarVal(scalars[i]), Pid(points[i]))
+	}
+	verif.Havoc(p)
+	SetPid(p, acc)
+	return p
+}
+
+//verif:contract for=(*curve.EdwardsPoint).ExpandedMultiscalarMulVartime group=gapi
+func ga_ExpMsm(p *EdwardsPoint, staticScalars []*scalar.Scalar, staticPoints []*ExpandedEdwardsPoint, dynamicScalars []*scalar.Scalar, dynamicPoints []*EdwardsPoint) *EdwardsPoint {
+	verif.Requires(len(staticScalars) == len(staticPoints) && len(dynamicScalars) == len(dynamicPoints), "ExpandedMultiscalarMulVartime: equal lengths")
+	// the same group element as the plain product over (dynamic || static), which is how the reference writes it
+	acc := GIdentity()
+	for i := range dynamicScalars {
+		acc = GMsmStep(acc, scalarVal(dynamicScalars[i]), Pid(dynamicPoints[i]))
+	}
+	for i := range staticScalars {
+		acc = GMsmStep(acc, scalarVal(staticScalars[i]), Pid(&staticPoints[i].point))
+	}
+	verif.Havoc(p)
+	SetPid(p, acc)
+	return p
+}
